@@ -30,6 +30,9 @@ def customOwnParseLiteralTakesAnyLiteral : Bool := true
     are refused (ValueError), finite values pass. -/
 def defaultScalarParseRejectsNonFinite : Bool := true
 
+/-- `default_scalar`'s `parse_literal` hands the variables on to `_untyped_literal`, which has a `Variable` branch (fix C06-H7) -/
+def standInLiteralSeesVariables : Bool := false
+
 /-- literal kinds admitted by each specified scalar's `parse_literal` (`_typed_coerce(f, *node classes)`) -/
 def literalKinds : List (String × List String) := [
   ("Int", ["int"]),
